@@ -302,21 +302,15 @@ def run(ck):
                     key = "defer-probe-" + name      # the listed finding is exactly `rfNamed 1 7` (operands of the return statements)
                 ck.violation(key, "probe %s: llgo %s vs go %s" % (name, got, want), {"probe": name, "llgo": got, "go": want, "rc": a[0]})
     # Goexit + panic in a deferred call, unrecovered: exit status and first panic line
-    pd = os.path.join(ck.work, "goexitpanic")
-    e2e.write_module(pd, {"main.go": gen.GOEXIT_PANIC})
-    r1, o1 = L.build(pd, os.path.join(pd, "p_llgo"), timeout=1500)
-    r2, o2 = e2e.go_build(pd, os.path.join(pd, "p_go"))
     if r1 == 0 and r2 == 0:
-        a = L.run_bin(os.path.join(pd, "p_llgo"), timeout=20)
-        b = e2e.run_plain(os.path.join(pd, "p_go"), timeout=20)
+        a = L.run_bin(os.path.join(pd, "p_llgo"), ["goexitpanic"], timeout=20)
+        b = e2e.run_plain(os.path.join(pd, "p_go"), ["goexitpanic"], timeout=20)
         nprobe += 1
         sa = "survived" if "SURVIVED" in a[2] else ("panic" if "boom while exiting" in a[2] else "other")
         sb = "survived" if "SURVIVED" in b[2] else ("panic" if "boom while exiting" in b[2] else "other")
         if a[0] != b[0] or sa != sb or ("last deferred call runs" in a[2]) != ("last deferred call runs" in b[2]):
             ck.violation("goexit-then-deferred-panic-outcome", "Goexit, then a deferred call panics, nobody recovers: llgo exit %s (%s), go exit %s (%s)" % (a[0], sa, b[0], sb),
                          {"llgo_rc": a[0], "go_rc": b[0], "llgo_tail": a[2][-300:], "go_tail": b[2][-300:]})
-    else:
-        ck.correspondence_broken("e2e-build-goexit-panic", (o1 + o2)[-800:])
     ck.phase("probes done")
     ck.add_cov(evaluations=total_runs + nprobe, nontrivial=interesting, samples=samples,
                runs=total_runs, runs_with_2plus_defers=interesting, outcome_cases=len(ocases), outcome_cases_with_recover=sum(1 for m in ometa if m['recs']), outcome_cases_body_panics=sum(1 for m in ometa if m['bodypanic']), stmt_kinds=dict(kinds_seen), differing_runs=dict(nknown))
